@@ -261,7 +261,7 @@ def run(ctx):
         mon.install(probe)
         Scope = fl.FldExporter.ScopeOfValues
         powers = sorted({k**n + dv for n in (2, 3, 4) for k in range(2, 46) for dv in (-1, 0, 1) if 1 <= k**n + dv <= 2000})
-        nengines = ctx.scale(50, 1500)
+        nengines = ctx.scale(50, 5000)
         for i, rnd in ctx.cases("scope", nengines):
             nin = 1 + i % 4
             spec = E.gen_engine(rnd, activations=("General",), max_inputs=nin, d=3, resolutions=[5, 10, 37], max_rules=4, max_depth=2)
